@@ -80,20 +80,37 @@ def run_cell(cfg, cx):
     @contextlib.contextmanager
     def patched(pvec):
         real = training.random.permutation
-        training.random.permutation = lambda key, n, *a, **k: pvec
+
+        def stub(*a, **k):
+            # the call the real code makes must be a valid call of jax.random.permutation producing a permutation of range(L)
+            # (arguments are concrete: run it for real first); only then is its result replaced by the symbolic permutation
+            with jax.ensure_compile_time_eval():
+                try:
+                    out = real(*a, **k)
+                except Exception as e:  # noqa: BLE001 - only the real jax function called with the real code's arguments is inside this try
+                    raise I.RealCodeRaised(e, "ml/training.py in get_batches (its call of jax.random.permutation)") from e
+                if isinstance(out, jax.core.Tracer):
+                    return pvec  # the key was derived inside the trace: the call type-checked, its value cannot be inspected
+                r = np.asarray(out)
+            if r.shape != (L,) or sorted(int(v) for v in r) != list(range(L)):
+                raise I.RealCodeRaised(ValueError(f"get_batches asks jax.random.permutation for {r.shape} values {r.tolist()[:8]}, not a permutation of range({L})"),
+                                       "ml/training.py in get_batches")
+            return pvec
+        training.random.permutation = stub
         try:
             yield
         finally:
             training.random.permutation = real
 
     devices = [None] * nd
+    KEY0 = jax.random.PRNGKey(0)  # concrete, made outside any trace (the stub runs the real jax.random.permutation on it eagerly)
 
     def run(pvec, blocks):
         mis = [geom.MultiImage({kp: bl[kp] for kp, _ in sg}, D, True) for bl, sg in zip(blocks, sigs)]
         arg = mis[0] if nmi == 1 else tuple(mis)
         if cfg["key"] == "perm":
             with patched(pvec):
-                batches = ml.get_batches(arg, B, jax.random.PRNGKey(0), devices)
+                batches = ml.get_batches(arg, B, KEY0, devices)
         else:
             batches = ml.get_batches(arg, B, None, devices)
         return [[dict(b.data) for b in lst] for lst in batches]
